@@ -26,6 +26,15 @@ fn validate_address(address: usize, size: usize, end_is_valid: bool) -> Result<(
     }
 }
 
+fn validate_range(address: usize, length: usize, size: usize) -> Result<usize> {
+    validate_address(address, size, false)?;
+    let end = address
+        .checked_add(length)
+        .ok_or(ArchiveError::OutOfBoundsAddress(address, size))?;
+    validate_address(end, size, true)?;
+    Ok(end)
+}
+
 fn validate_alignment(value: usize, bytes: usize) -> Result<()> {
     if value % bytes != 0 {
         Err(ArchiveError::UnalignedValue(value, bytes))
@@ -447,9 +456,8 @@ impl BinArchive {
     }
 
     pub fn read_bytes(&self, address: usize, amount: usize) -> Result<&[u8]> {
-        validate_address(address, self.size(), false)?;
-        validate_address(address + amount, self.size(), true)?;
-        Ok(&self.data[address..(address + amount)])
+        let end = validate_range(address, amount, self.size())?;
+        Ok(&self.data[address..end])
     }
 
     pub fn read_string(&self, address: usize) -> Result<Option<String>> {
@@ -655,8 +663,7 @@ impl BinArchive {
     }
 
     pub fn deallocate(&mut self, address: usize, amount_in_bytes: usize, ge: bool) -> Result<()> {
-        validate_address(address, self.size(), false)?;
-        validate_address(address + amount_in_bytes, self.size(), true)?;
+        validate_range(address, amount_in_bytes, self.size())?;
         validate_alignment(address, 4)?;
         validate_alignment(amount_in_bytes, 4)?;
         self.data.drain(address..(address + amount_in_bytes));
